@@ -149,7 +149,7 @@ fn build(c: &Choices) -> Decl {
             let pool: Vec<SanSpec> = vec![
                 SanSpec::Trim,
                 if c.san[0].index(2) == 0 { SanSpec::Lower } else { SanSpec::Upper },
-                SanSpec::With(FnRef::new(["s_trunc5", "s_appendx", "s_padsp", "s_repl", "s_prepz"][c.san[1].index(5)], form(0))),
+                SanSpec::With(FnRef::new(["s_trunc5", "s_appendx", "s_padsp", "s_repl", "s_prepz", "s_at2sp", "s_bang2z"][c.san[1].index(7)], form(0))),
             ];
             let mut order: Vec<usize> = vec![0, 1, 2];
             for i in 0..2 {
@@ -377,6 +377,11 @@ fn build(c: &Choices) -> Decl {
     }
     picked.sort();
     picked.dedup();
+    // the order in which traits are listed carries no meaning: a random one
+    for i in 0..picked.len() {
+        let j = i + c.bound_pos[i % c.bound_pos.len()].index(picked.len() - i);
+        picked.swap(i, j);
+    }
     d.derives = picked;
     // layout
     let blocks = [Block::Sanitize, Block::Validate, Block::Derive, Block::Default, Block::ConstFn, Block::NewUnchecked];
